@@ -45,7 +45,8 @@ ASSUMPTIONS = [
   "time passes only inside the virtual select and in explicit 'busy' actions; steps take no time otherwise",
   "the virtual select returns exactly the descriptors among those passed that are ready; select.epoll is replaced by a fake below the real EpollSelect",
   "schedule() is only called on a task that is blocked by `yield False` / Sleep(None) and has not been woken yet",
-  "locks are only released by their holder; lock exclusion itself is C07's subject, here only the step discipline around locks is judged",
+  "locks are only released by their holder; lock exclusion itself is C07's subject, here only the step discipline around locks is judged "
+  "(blocking acquire returns True; a release while somebody waits must resume some waiter)",
   "recurring timers: both 'previous due + interval' and 'previous firing + interval' are accepted as the next due time",
   "a Select that returns nothing is accepted whenever its timeout has passed, even if a descriptor became ready meanwhile",
   "bounded liveness is judged for priority >= 1 only; priorities < 1 only get safety checks (the _random hook is made fair by appending 0.0)",
@@ -53,7 +54,8 @@ ASSUMPTIONS = [
 EXHAUSTIVE_SCOPE = {
   "quick": "all ordered pairs of programs of length 1..2 over {yield 0, yield .25, Sleep(.5), Sleep(absolute), Select([],[],[],.25), yield False, wake, "
            "sub-task call, busy .5, raise}; timer grid (t, one-shot/recurring/absolute, self-stop, return scripts, cancel instants, companion work); "
-           "descriptor grid (2 fds x ready instants x timeouts x two selecting tasks x select/epoll)",
+           "descriptor grid (2 fds x ready instants x timeouts x two selecting tasks x select/epoll); "
+           "lock grid (two tasks, programs of length <= 2 resp. acquire + 2 over {acquire, try-acquire, release, yield 0, yield .25} on one lock)",
   "thorough": "as quick, plus all triples of programs of length 1 and pairs with one program of length 3, both schedule() paths",
 }
 
@@ -208,6 +210,21 @@ def _enum_io(tier):
                                  {"prog": extra + [{"op": "select", "r": r1, "t": t1}, {"op": "yn", "n": 0.25}]}]}
 
 
+def _enum_locks(tier):
+  v = [{"op": "acquire", "lock": 0}, {"op": "acquire", "lock": 0, "blocking": False}, {"op": "release", "lock": 0},
+       {"op": "y0"}, {"op": "yn", "n": 0.25}]
+  short = [list(p) for n in (1, 2) for p in itertools.product(v, repeat=n)]
+  held = [[v[0]] + list(p) for p in itertools.product(v, repeat=2)]
+  for p0 in short + held:
+    for p1 in short:
+      yield {"mode": "inline", "horizon": 4, "locks": 1, "tasks": [{"prog": p0}, {"prog": p1}]}
+  if tier == "thorough":
+    for p0 in held:
+      for p1 in held:
+        for p2 in short[:5] + [[v[0], v[2]]]:
+          yield {"mode": "inline", "horizon": 4, "locks": 1, "tasks": [{"prog": p0}, {"prog": p1}, {"prog": p2}]}
+
+
 # ---------------------------------------------------------------------------------------------- Hypothesis
 
 _DUR = [0.125, 0.25, 0.375, 0.5, 0.75, 1.0, 1.5, 2.5]
@@ -306,11 +323,13 @@ def plan(tier):
       Enum("pairs", lambda: _enum_pairs("quick"), shards=16),
       Enum("timers", lambda: _enum_timers("quick"), shards=8),
       Enum("io", lambda: _enum_io("quick"), shards=8),
+      Enum("locks", lambda: _enum_locks("quick"), shards=4),
       Hyp("programs", lambda: _strategy("quick"), examples=4000, shards=16),
     ]
   return [
     Enum("pairs", lambda: _enum_pairs("thorough"), shards=16),
     Enum("timers", lambda: _enum_timers("thorough"), shards=16),
     Enum("io", lambda: _enum_io("thorough"), shards=16),
-    Hyp("programs", lambda: _strategy("thorough"), examples=120000, shards=16),
+    Enum("locks", lambda: _enum_locks("thorough"), shards=16),
+    Hyp("programs", lambda: _strategy("thorough"), examples=300000, shards=16),
   ]
